@@ -139,6 +139,11 @@ EVENTS = {
     "obj.__array__/asanyarray": lambda: (np.asanyarray(_o4tau()), np.asarray(_o3())),
     "pickle(obj)": lambda: pickle.loads(pickle.dumps(_o4tau())),
     "repr(obj)": lambda: (repr(_o4()), repr(_n4()), repr(_a4())),
+    # the same *numbers* in two different coordinate systems (their coordinate NamedTuples compare equal although they are of
+    # different kinds): a value-keyed cache anywhere in the object backend makes the second of these depend on the first
+    "obj(x=1,y=2,z=3,t=4) forms": lambda: _same_numbers(vector.obj(x=1.0, y=2.0, z=3.0, t=4.0)),
+    "obj(rho=1,phi=2,eta=3,tau=4) forms": lambda: _same_numbers(vector.obj(rho=1.0, phi=2.0, eta=3.0, tau=4.0)),
+    "obj(pt=1,phi=2,theta=3,mass=4) forms": lambda: _same_numbers(vector.obj(pt=1.0, phi=2.0, theta=3.0, mass=4.0)),
     # numpy backend
     "np.rho/.eta/.tau": lambda: (_n4().rho, _n4().eta, _n4().tau, _n4m().t, _n4m().Mt, _n4().rapidity),
     "np.rotate/scale/unit": lambda: (_n4().rotateX(0.3), _n4().scale(-2.0), _n4().unit(), _n4m().unit(), _n4().to_beta3()),
@@ -175,6 +180,11 @@ EVENTS = {
     "register_numba()": lambda: vector.register_numba(),
 }
 REGISTRY = {"register_awkward()", "register_numba()"}
+
+
+def _same_numbers(o):
+    return (np.asarray(o), np.asanyarray(o), o.to_xyzt(), o.to_rhophietatau(), o.x, o.rho, o.z, o.eta, o.theta, o.t, o.tau, o.mag, -o, o * 2, o.rotateZ(0.5), o.to_Vector3D(), o.to_Vector2D(),
+            repr(o), pickle.loads(pickle.dumps(o)), o == o, o.isclose(o))
 
 
 def _inplace():
